@@ -108,7 +108,7 @@ func TestVerifC19Wire(t *testing.T) {
 
 		cases := c19ReqWireCases()
 		rng := l.Rand(id)
-		for i, n := 0, l.Pick(120, 1500); i < n; i++ {
+		for i, n := 0, l.Pick(120, 600); i < n; i++ {
 			list := c19RandBase(rng, c19Req)
 			for m := rng.IntN(3); m > 0; m-- {
 				list = c19Mutate(rng, list)
@@ -140,7 +140,7 @@ func TestVerifC19Wire(t *testing.T) {
 			}
 			str.Write(frame)
 			str.Close()
-			str.SetReadDeadline(time.Now().Add(5 * time.Second))
+			str.SetReadDeadline(time.Now().Add(10 * time.Second))
 			data, rerr := io.ReadAll(str)
 			st.add("wire_server_requests")
 			trace := map[string]any{"case": wc.Name, "wire": c19Trace(c19Req, got, effLimit, "quic")}
@@ -150,7 +150,7 @@ func TestVerifC19Wire(t *testing.T) {
 			case errors.As(rerr, &se):
 				outcome = fmt.Sprintf("reset:%#x", uint64(se.ErrorCode))
 			case errors.Is(rerr, os.ErrDeadlineExceeded):
-				c.Inconclusive("no answer within 5 s for " + wc.Name)
+				c.Inconclusive("no answer within 10 s for " + wc.Name)
 				str.CancelRead(0)
 				continue
 			case rerr != nil:
@@ -232,7 +232,7 @@ func TestVerifC19Wire(t *testing.T) {
 		{"cl_contradictory", rsp(c19F{Name: "content-length", Value: "0"}, c19F{Name: "content-length", Value: "1"})},
 	}
 	rng := l.Rand(id)
-	for i, n := 0, l.Pick(60, 800); i < n; i++ {
+	for i, n := 0, l.Pick(60, 400); i < n; i++ {
 		list := c19RandBase(rng, c19Resp)
 		list[0].Value = []string{"200", "404", "500"}[rng.IntN(3)]
 		for m := rng.IntN(3); m > 0; m-- {
@@ -264,7 +264,7 @@ func TestVerifC19Wire(t *testing.T) {
 			continue
 		}
 		j := c19Judge(c19Resp, got, 10<<20)
-		ctx, cancel := context.WithTimeout(context.Background(), 5*time.Second)
+		ctx, cancel := context.WithTimeout(context.Background(), 10*time.Second)
 		resCh := make(chan rtResult, 1)
 		go func() {
 			req, _ := http.NewRequestWithContext(ctx, http.MethodGet, "https://quic-go.net/", nil)
@@ -288,13 +288,14 @@ func TestVerifC19Wire(t *testing.T) {
 				c19V(c, "C19|client|accepted_unsafe|"+c19FirstReason(j.mask), fmt.Sprintf("RoundTrip returned a response for a malformed section %v: StatusCode=%d Header=%v", c19ReasonList(j.mask), res.rsp.StatusCode, res.rsp.Header), trace)
 			}
 			str.Close()
+			str.CancelRead(0)
 			res.rsp.Body.Close()
 			cancel()
 			continue
 		}
 		if ctx.Err() != nil {
 			cancel()
-			c.Inconclusive("RoundTrip did not return within 5 s for " + wc.Name)
+			c.Inconclusive("RoundTrip did not return within 10 s for " + wc.Name)
 			str.CancelWrite(0)
 			continue
 		}
@@ -305,6 +306,8 @@ func TestVerifC19Wire(t *testing.T) {
 		}
 		_, werr := str.Write([]byte{0})
 		cancel()
+		str.CancelRead(0)
+		str.CancelWrite(0)
 		var se *quic.StreamError
 		if !errors.As(werr, &se) {
 			c.Inconclusive(fmt.Sprintf("no STOP_SENDING observed for %s (%v)", wc.Name, werr))
